@@ -404,6 +404,17 @@ def p_cmp(eng, st, name, args, site, depth, call):
                               or "impl std::cmp" in name):
         return opaque_call(eng, st, name, args, site, call)
     a, b = vals(eng, st, args)
+    if op in ("lt", "le", "gt", "ge") and a[0] == "variant" and b[0] == "variant" and a[1] == b[1] and not a[3] and not b[3]:
+        # field-less variants of an enum whose PartialOrd is derived (its body is a skipped derive expansion, not hand-written
+        # code): the order is the declaration order, i.e. the order of the discriminants
+        adt = eng.facts.adt(a[1])
+        pretty = (adt or {}).get("pretty", a[1])
+        if adt and eng.facts.skipped.get("<%s as std::cmp::PartialOrd>::partial_cmp" % pretty) == "from_expansion":
+            d = {v["name"]: int(v["discr"]) for v in adt["variants"] if v["discr"] is not None}
+            if a[2] in d and b[2] in d:
+                x, y = d[a[2]], d[b[2]]
+                r = {"lt": x < y, "le": x <= y, "gt": x > y, "ge": x >= y}[op]
+                return one(st, TRUE if r else FALSE)
     if op == "eq":
         return one(st, mkcmp("eq", a, b))
     if op == "ne":
@@ -706,8 +717,10 @@ def p_sp_iter(eng, st, name, args, site, depth, call):
 
 
 # --------------------------------------------------------------------------- Map::key(k) -> Path: the same cell, addressed once
-@prim("cw_storage_plus::Map::key")
+@prim("cw_storage_plus::Map::key", "cw_storage_plus::SnapshotMap::key")
 def p_map_key(eng, st, name, args, site, depth, call):
+    # SnapshotMap::key is the Path of the primary map: reads see the live value; a write through it records no
+    # changelog entry - it appears as a write without height, which the snapshot rules reject
     return one(st, ("path", _item(eng, st, args[0]), eng.val(st, args[1])))
 
 
@@ -1043,7 +1056,8 @@ def p_sort_dedup(eng, st, name, args, site, depth, call):
 def _iter_loop(eng, st, name, args, site, depth, call):
     """try_fold / try_for_each / fold / for_each: summarised like a `for` loop traversed zero times and once, with the
     same loop_enter / loop_step effects, `next` decisions and loopvar terms the MIR loops get (idioms.acc_chain /
-    loop_elem work unchanged).  A failing closure result breaks out with that error."""
+    loop_elem work unchanged).  Places the closure captured by `&mut` are loop variables too (field by field for a
+    struct), exactly like locals assigned in a `for` body.  A failing closure result breaks out with that error."""
     op = name.split("::")[-1]
     it = eng.val(st, args[0])
     has_acc = op in ("try_fold", "fold")
@@ -1051,10 +1065,50 @@ def _iter_loop(eng, st, name, args, site, depth, call):
     clos = args[2] if has_acc else args[1]
     init = eng.val(st, args[1]) if has_acc else UNIT
     lk = (site[2], ("iter", op, site[1]), st.fresh())
+    # captured mutable places
+    craw = clos
+    n_ = 0
+    while isinstance(craw, tuple) and craw and craw[0] == "ref" and n_ < 8:
+        craw = eng.read_loc(st, craw[1], craw[2])
+        n_ += 1
+    leaves = []
+    if isinstance(craw, tuple) and craw and craw[0] == "closure":
+        for i, up in enumerate(craw[2]):
+            if isinstance(up, tuple) and up and up[0] == "ref" and up[1] in st.mem:
+                cur = eng.read_loc(st, up[1], up[2])
+                if isinstance(cur, tuple) and cur and cur[0] == "struct":
+                    for j, (n, v) in enumerate(cur[2]):
+                        from .engine import HD
+                        leaves += eng.loop_leaves(st, up[1], "up%d.%s" % (i, n), tuple(up[2]) + (HD({"f": j, "n": n}),), 1)
+                elif not (isinstance(cur, tuple) and cur and cur[0] == "ref"):
+                    leaves.append((up[1], tuple(up[2]), "up%d" % i))
+    if leaves:
+        # trial iteration on a scratch copy: only the captured places an iteration actually changes become loop variables
+        # (the rest are loop-invariant and keep their value)
+        t0 = st.copy()
+        tlk = (site[2], ("iter-trial", op, site[1]), t0.fresh())
+        for loc, path, nm in leaves:
+            eng.write_loc(t0, loc, path, ("loopvar", tlk, nm, 0))
+        changed = set()
+        telem = ("vfield", ("calli", "next", (("loopvar", tlk, "iter", 0),), t0.fresh()), "Some", "0")
+        tacc = ("loopvar", tlk, "acc", 0)
+        saved_paths, saved_steps = eng._paths, eng._steps
+        try:
+            for s2, r in eng.call_value(t0, clos, ([tacc, telem] if has_acc else [telem]), site, depth):
+                for loc, path, nm in leaves:
+                    if eng.val(s2, eng.read_loc(s2, loc, path)) != ("loopvar", tlk, nm, 0):
+                        changed.add(nm)
+        finally:
+            eng._paths = saved_paths
+        leaves = [x for x in leaves if x[2] in changed]
     vals0 = {"iter": it}
     if has_acc:
         vals0["acc"] = init
+    for loc, path, nm in leaves:
+        vals0[nm] = eng.val(st, eng.read_loc(st, loc, path))
     st.effects.append(Effect("loop_enter", name=lk, value=vals0, site=site, loops=st.loopstack, stack=st.stack))
+    for loc, path, nm in leaves:
+        eng.write_loc(st, loc, path, ("loopvar", lk, nm, 0))
     it0 = ("loopvar", lk, "iter", 0)
     acc0 = ("loopvar", lk, "acc", 0) if has_acc else UNIT
     nxt = ("calli", "next", (it0,), st.fresh())
@@ -1078,10 +1132,14 @@ def _iter_loop(eng, st, name, args, site, depth, call):
                     out.append((s3, ERR(p3[0]) if n3 == "Err" else NONE))
                     continue
                 v = eng.val(s3, p3[0]) if p3 else UNIT
-                vals1 = {"iter": it0}
+                vals1 = {"iter": ("call", "advance", (it0,))}
                 if has_acc:
                     vals1["acc"] = v
+                for loc, path, nm in leaves:
+                    vals1[nm] = eng.val(s3, eng.read_loc(s3, loc, path))
                 s3.effects.append(Effect("loop_step", name=lk, value=vals1, site=site, loops=s3.loopstack, stack=s3.stack))
+                for loc, path, nm in leaves:
+                    eng.write_loc(s3, loc, path, ("loopvar", lk, nm, 1))
                 s3.loopstack = outer
                 acc1 = ("loopvar", lk, "acc", 1) if has_acc else UNIT
                 if fallible:
@@ -1182,6 +1240,12 @@ def p_res_map_or(eng, st, name, args, site, depth, call):
         else:
             out.extend(_call_closure(eng, s, args[1], [p[0]], site, depth))
     return out
+
+
+@prim("std::iter::Iterator::any", "std::iter::Iterator::all", "std::iter::Iterator::find", "std::iter::Iterator::position",
+      "std::iter::Iterator::count")
+def p_iter_consume2(eng, st, name, args, site, depth, call):
+    return p_iter_consume(eng, st, name, args, site, depth, call)
 
 
 @prim_re(r"^<.* as std::iter::Iterator>::(any|all|find|position|count|fold)$")
